@@ -35,7 +35,7 @@ COMPONENTS = {"real": ["ECAgent.Collectors.AgentCollector.collect", "FileCollect
 PROBES = ["empty_record_suppressed", "collector_off_window", "removed_by_higher_priority_same_step",
           "added_by_higher_priority_same_step", "changed_after_collector_turn", "composite_used", "value_zero_recorded",
           "crash_at_flush_boundary", "crash_mid_flush", "real_file", "composite_shared_dict", "empty_string_record", "environment_replaced", "system_removed_next_to_collector", "empty_collection", "empty_flush",
-          "preexisting_content", "two_file_collectors", "buffer_overflow_mid_flush", "falsy_callable_objects_as_functions", "model_with_own_timestep_attribute", "collect_returns_a_value", "write_records_overridden_by_the_user", "composite_result_not_a_dict", "stateful_per_agent_function", "composite_summarises_the_per_agent_pass"]
+          "preexisting_content", "two_file_collectors", "buffer_overflow_mid_flush", "falsy_callable_objects_as_functions", "model_with_own_timestep_attribute", "collect_returns_a_value", "write_records_overridden_by_the_user", "composite_result_not_a_dict", "stateful_per_agent_function", "composite_summarises_the_per_agent_pass", "copy_of_the_running_model_discarded", "stopped_model_discarded_and_collected"]
 TECHNIQUE = "deterministic simulation: population changing on a seeded schedule inside timesteps vs a replaying reference; simulated disk with crash points and the conservation invariant file + held = collected"
 LEVEL_TEXT = ("Seeded search over population-change schedules, collector windows and disk behaviour; after every timestep the "
               "records equal the reference's and earlier records are untouched; for the file collector, after every disk event "
@@ -137,6 +137,10 @@ def generate(rng, tier):
             c_["returns"] = rng.random() < 0.15
             c_["own_writer"] = rng.random() < 0.2
             c_["filemode"] = rng.choice(["a", "a", "a", "a", "at", "a+", "ta"])      # every spelling open() takes as "append"
+        # object lifetime: a checkpoint copy of the running model is made and thrown away at some timestep; and when the
+        # run is over the model itself is dropped and the garbage collector runs - neither touches the file
+        sc["discard_copy_at"] = rng.randint(0, max(0, sc["steps"] - 1)) if rng.random() < 0.3 else None
+        sc["discard_at_end"] = rng.random() < 0.5
     return sc
 
 
@@ -496,9 +500,40 @@ class FileWorld:
 
 
 def run_file_arm(sc, ctx):
+    box = {"tmpdir": None, "real": bool(sc.get("real_file")), "post": [], "disk": None}
+    try:
+        _file_arm(sc, ctx, box)          # every reference to the model and its collectors dies with this frame
+        if box["post"] and sc.get("discard_at_end"):
+            import gc
+            gc.collect()
+            ctx.fault("lifetime.model_discarded")
+            ctx.probe("stopped_model_discarded_and_collected")
+            for fn, want in box["post"]:
+                now = _read_back(box, fn)
+                ctx.check(now == want, "file-changed-after-the-run",
+                          lambda: f"{fn!r}: the run was stopped with the file holding {want[-80:]!r} (a whole-flush prefix); after the "
+                                  f"model was discarded and garbage-collected it holds {now[-80:]!r}")
+    finally:
+        if not box["real"] and "open" in COL.__dict__:
+            del COL.open
+        if box["tmpdir"]:
+            import shutil
+            shutil.rmtree(box["tmpdir"], ignore_errors=True)
+
+
+def _read_back(box, fn):
+    if box["real"]:
+        if not os.path.exists(fn):
+            return ""
+        with open(fn) as f:
+            return f.read()
+    return box["disk"].durable(fn)
+
+
+def _file_arm(sc, ctx, box):
     m = make_model(sc, ctx)
     w = FileWorld(ctx)
-    real = bool(sc.get("real_file"))
+    real = box["real"]
     cols = []
     tmpdir = None
     state = {"in_flush": False}
@@ -514,13 +549,13 @@ def run_file_arm(sc, ctx):
 
     disk = None
     if real:
-        tmpdir = tempfile.mkdtemp(prefix="c17-", dir="/dev/shm" if os.path.isdir("/dev/shm") else None)
+        tmpdir = box["tmpdir"] = tempfile.mkdtemp(prefix="c17-", dir="/dev/shm" if os.path.isdir("/dev/shm") else None)
         ctx.probe("real_file")
     else:
         initial = {c["file"]: c["pre"] for c in sc["collectors"] if c["pre"]}
-        disk = SimDisk(bufsize=int(sc["bufsize"]), crash_at=sc.get("crash_event"), on_event=prefix_invariant,
-                       initial=initial)
-    try:
+        disk = box["disk"] = SimDisk(bufsize=int(sc["bufsize"]), crash_at=sc.get("crash_event"), on_event=prefix_invariant,
+                                     initial=initial)
+    if True:
         seen = set()
         for spec in sc["collectors"]:
             if spec["id"] in seen or spec["file"] in {c.spec["file"] for c in cols} or spec["freq"] < 1 \
@@ -595,6 +630,27 @@ def run_file_arm(sc, ctx):
                     nontrivial = True
                 shape.append([wc, c.n_coll, flushes])
             ctx.state([[c.n_coll % (c.spec["write_count"] + 1), len(c.records)] for c in cols])
+            if sc.get("discard_copy_at") == t:
+                import gc
+                ctx.fault("lifetime.copy_discarded")
+                ctx.probe("copy_of_the_running_model_discarded")
+                snap = [(c.filename, _read_back(box, c.filename)) for c in cols]
+                w.ctx = None
+                try:
+                    twin = copy.deepcopy(m)
+                finally:
+                    w.ctx = ctx
+                del twin
+                gc.collect()
+                for fn_, was in snap:
+                    now = _read_back(box, fn_)
+                    ctx.check(now == was, "discarded-copy-wrote-to-the-file",
+                              lambda: f"t={t} {fn_!r}: a deep copy of the running model was made and thrown away; the file went from "
+                                      f"{was[-60:]!r} to {now[-60:]!r}")
+        if not crashed:
+            box["post"] = [(c.filename, _read_back(box, c.filename)) for c in cols]
+        if disk is not None:
+            disk.on_event = None           # (the invariant closure refers to the collectors)
         if crashed:
             # weaker invariant only: whatever survived is a prefix of the collected text
             prefix_invariant(disk, len(disk.events), "crash", "-")
@@ -604,12 +660,6 @@ def run_file_arm(sc, ctx):
             ctx.probe("buffer_overflow_mid_flush")
         ctx.nontrivial = nontrivial or crashed
         ctx.sig = ["file", shape[:40], crashed, int(sc["bufsize"])]
-    finally:
-        if not real and "open" in COL.__dict__:
-            del COL.open
-        if tmpdir:
-            import shutil
-            shutil.rmtree(tmpdir, ignore_errors=True)
 
 
 def execute(sc, ctx):
